@@ -116,6 +116,30 @@ async fn client(sh: Arc<Shared>, c: usize, spec: ClientSpec, slots: Slots) {
                 Some(other) => put_back(&slots, c, slot, other),
                 None => {}
             },
+            Op::StopDeferred { slot, defer } => match take_slot(&slots, c, slot) {
+                Some(Hdl::S(a, h)) => {
+                    {
+                        let fut = h.make_stop(&sh);
+                        if defer == 0 {
+                            drop(fut);
+                            sh.log.push(K::Note(format!("stop-future-dropped-unpolled actor {a}")));
+                            tokio::task::yield_now().await;
+                        } else {
+                            if defer == 1 {
+                                tokio::task::yield_now().await;
+                            } else {
+                                tokio::time::sleep(Duration::from_millis(defer)).await;
+                            }
+                            let g = CallGuard::start(&sh, a, OpKind::Stop, '-', 0, 0, ctx);
+                            let res = fut.await;
+                            g.end(to_res(res, |_| Rep::None));
+                        }
+                    }
+                    put_back(&slots, c, slot, Hdl::S(a, h));
+                }
+                Some(other) => put_back(&slots, c, slot, other),
+                None => {}
+            },
             Op::Stop { slot } => match take_slot(&slots, c, slot) {
                 Some(Hdl::S(a, h)) => {
                     stop_via(&sh, ctx, a, &h).await;
